@@ -50,6 +50,9 @@ CONST_FNS = {
     "py-float": ("lambda x: 3.5", "scalar"), "np-scalar": ("lambda x: onp.float64(2.0)", "scalar"), "array": ("lambda x: onp.array([1.0, 2.0])", "array"),
     "captured": ("lambda x: K", "array"), "0d": ("lambda x: onp.array(4.0)", "scalar"), "anp-made": ("lambda x: np.sum(np.ones(3)) * 2.0", "scalar"),
     "container": ("lambda x: ab.tuple((1.0, onp.ones(2)))", "container"), "other-arg-dependent": ("lambda x: np.sin(Z) * 2.0", "scalar"),
+    # dependence only through an argument registered as non-differentiable (the condition of np.where), broadcast against larger branches
+    "where-condition": ("lambda x: np.sum(np.where(x, AA, BB))", "scalar"), "where-condition-array": ("lambda x: np.where(x, AA, BB)", "array"),
+    "floor-then-smooth": ("lambda x: np.sum(np.sin(np.floor(x)) * AA[0])", "scalar"),
 }
 OPERATORS = ["grad", "value_and_grad", "elementwise_grad", "jacobian", "make_vjp", "make_jvp", "deriv", "hessian", "make_hvp", "grad-of-grad",
              "holomorphic_grad", "grad_and_aux", "tensor_jacobian_product", "hessian_tensor_product"]
@@ -66,7 +69,11 @@ def const_factory(quick, seed):
         op = ch.choose("operator", OPERATORS)
         src, outkind = CONST_FNS[fname]
         x = ARGS[aname]
-        f = eval(src, dict(np=np, onp=onp, ab=ab, K=K, Z=0.3))
+        AA, BB = onp.arange(6.0).reshape(3, 2) + 1.0, -onp.ones((3, 2))
+        if fname in ("where-condition", "where-condition-array", "floor-then-smooth"):
+            if aname not in ("float", "npfloat", "array0d", "array"):
+                raise Skip("the condition must broadcast against the (3,2) branches")
+        f = eval(src, dict(np=np, onp=onp, ab=ab, K=K, Z=0.3, AA=AA, BB=BB))
         arr_arg = isinstance(x, (onp.ndarray, float, complex, onp.generic))
         real_arg = arr_arg and not onp.iscomplexobj(x)
         res = None
@@ -339,12 +346,63 @@ def compose_factory(quick, seed):
     return h, judge
 
 
-HARNESSES = {"const": const_factory, "nograd": nograd_factory, "compose": compose_factory}
+def nested_factory(quick, seed):
+    """An inner differentiation whose output does not depend on ITS variable (but does depend on an enclosing, traced one)
+    must give an exact zero - in every mode combination and operator spelling."""
+    L = lib()
+    ag, np = L["ag"], L["np"]
+    INNER = {"grad": lambda f, y: ag.grad(f)(y), "deriv": lambda f, y: ag.deriv(f)(y), "vjp": lambda f, y: ag.make_vjp(f)(y)[0](1.0),
+             "jvp": lambda f, y: ag.make_jvp(f)(y)(1.0)[1], "egrad": lambda f, y: ag.elementwise_grad(f)(y), "jac": lambda f, y: ag.jacobian(f)(y)}
+    OUTER = {"grad": lambda F, x: ag.grad(F)(x), "deriv": lambda F, x: ag.deriv(F)(x), "vag": lambda F, x: ag.value_and_grad(F)(x)[1]}
+    BODY = {"x**2": lambda x, y: x ** 2, "sin(x)*3": lambda x, y: np.sin(x) * 3.0, "x": lambda x, y: x, "x*floor(y)": lambda x, y: x * np.floor(y),
+            "where(y>0, x, -x)": lambda x, y: np.where(y > 0, x, -x), "x + 0*K": lambda x, y: x + 0.0}
+
+    def h(ch):
+        inner = ch.choose("inner", sorted(INNER))
+        outer = ch.choose("outer", sorted(OUTER))
+        body = ch.choose("body", sorted(BODY))
+        depth3 = ch.flag("depth3")
+        y0 = ch.choose("y0", [5.0, -0.5])
+        x0 = 1.5 + 0.01 * (seed % 7)
+        got = {}
+
+        def F(x):
+            dz = INNER[inner](lambda y: BODY[body](x, y), y0)
+            got["inner"] = dz
+            if depth3:
+                dz = dz + INNER[inner](lambda y: INNER["grad"](lambda z: BODY[body](x, y) * 1.0, 0.3), y0)
+            return 3.0 * x + dz * x
+
+        with warnings.catch_warnings():
+            warnings.simplefilter("ignore")
+            try:
+                r = OUTER[outer](F, x0)
+                iv = got.get("inner")
+                while hasattr(iv, "_value"):
+                    iv = iv._value
+                return inner, outer, body, (float(r), float(iv))
+            except Exception as e:
+                return inner, outer, body, "%s: %s" % (type(e).__name__, str(e)[:100])
+
+    def judge(ch, out):
+        inner, outer, body, got = out
+        ok = not isinstance(got, str) and got[0] == 3.0 and got[1] == 0.0
+        v = None
+        if not ok:
+            v = violation(PROP, "nested", inner, "fwd" if inner in ("deriv", "jvp") else "rev", "raised" if isinstance(got, str) else "not-exact-zero",
+                          dict(inner=inner, outer=outer), ch.choices, dict(inner=inner, outer=outer, body=body), got, [3.0, 0.0],
+                          "# d/dx [3x + x * D_y(%s)(y0)] must be exactly 3 and the inner derivative exactly 0 (inner operator %s, outer %s)" % (body, inner, outer))
+        return dict(v=v, nontrivial=True, outcome=(inner, outer, body), counts={}, sample=dict(choices=list(ch.choices), inner=inner, outer=outer, body=body, observed=repr(got)))
+
+    return h, judge
+
+
+HARNESSES = {"const": const_factory, "nograd": nograd_factory, "compose": compose_factory, "nested": nested_factory}
 
 
 def run(ctx):
     rep = Report("exploration")
-    run_harnesses(ctx, rep, __name__, ["const", "nograd", "compose"], depth=2)
+    run_harnesses(ctx, rep, __name__, ["const", "nograd", "compose", "nested"], depth=2)
     rep.add(rule="const: (constant function, argument kind, operator); nograd: (call of a non-differentiable export on a traced value, "
                  "shape, mode); compose: (h, composition, mode); non-trivial = non-float argument / any nograd or compose leaf")
     rep.assumptions = ["finite alphabets of constant functions (%d), argument kinds (%d), operators (%d), non-differentiable calls (%d)" % (
